@@ -53,6 +53,21 @@ PROPS = {
         ],
         "gen": ["EventSchema"],
     },
+    "C04": {
+        "level_text": "Lean 4 theorems over an executable model of the tail-scanning read paths (provider cursor status, context selection status): truth answers as functions of the thread's frames, the bounded tail scan, the doubling-window loop and validate-then-fall-back, with the loop's features as switches so the code before and after the repairs can both be run — for EVERY cache content, limit, first window and maximum the loops end within max - w0 + 1 windows (FALSE before the repair: witness with a thread longer than the largest window); with a cache holding what it should the fast path equals the truth answer for every thread and window schedule (FALSE before the repair: duplicated decisions, partial cursor answers); a suffix-only cache file gives a wrong answer now and would be harmless with a head check (proved); a rolled-back (prefix-only) file is undetectable even then (witness). The loop shapes, fall-back conditions and head check are REGENERATED from the current source on every run and the theorems are stated for the regenerated shape (genShape = current by decide). Tied by the property's own observation on every run: thread histories built through the store API (short; fat: sidecars beyond the first and the largest tail window; thorough: > 10^4 frames), per history an unfaulted round, an index-loss round and three fault rounds (delete / truncate at a byte / garbage / roll back to a saved earlier version on any cache file, half followed by a restart and further appends); nine read capabilities — replay, cut points, compaction status, cursor status, selection status, the context compiled for a run, branch and handoff cut, default-thread recovery — evaluated with caches as found vs continuity_streams/ removed under a 20 s cap; every difference shrunk to a 1-minimal fault set; cursor and selection status also compared with the Lean specification. Two defect groups found and repaired (non-terminating / duplicating / partial tail scans; default thread after index loss), two recorded as known findings (stale prefix and suffix-only cache files pass the validators).",
+        "level_note": "Lean kernel; windows are counted in frames in the model (byte and event budgets are both monotone; theorems quantify over every first window and maximum); only the two tail-scanning status queries are modelled — replay, cut points, compaction status, compiled context and the lineage cuts are covered by the as-found vs truth comparison (and by C08/C09/C10 on their truth semantics), not by a model of their seven cache formats; ripx recognises the loop shape textually and fails closed.",
+        "technique": "Lean 4 proof (termination by a window measure, loop invariants, decide-checked counterexamples for the unrepaired and the faulty-cache cases) + decide over regenerated loop shapes + as-found vs truth differential with fault injection and shrinking",
+        "design_ref": "§5 C04",
+        "trusted_base": COMMON_TB + [
+            "translator ripx (syn + text): doubling-window loops of continuities.rs, fall-back conditions, scan_tail head check",
+            "hooks: ripd::verif_export::continuities::{append_selection_decided, append_compiled, append_cursor_updated}, session::compile_for_run",
+        ],
+        "assumptions": [
+            "known findings: a cache file rolled back to an earlier well-formed version, and a derived cache file lost and recreated by later appends, are trusted by the readers (known_findings.json: C04|*|*rollback:*, C04|*|delete:*+appends)",
+            "only default-thread recovery is claimed for continuities/index.json loss",
+        ],
+        "gen": ["TailLoops"],
+    },
     "C06": {
         "level_text": "Lean 4 theorems over a two-actor transition system (producer emitting n frames with a micro-program over lock / publish / record / unlock; subscriber doing subscribe, then snapshot under the same lock, then history ++ live filtered by seq): for each join-safe emit order, every n and EVERY interleaving, the subscriber delivers 0..n-1 exactly once in order; the producer is independent of subscribers; the snapshot is never blocked forever. The emit orders and handler orders are REGENERATED from the current source by the translator ripx on every run, and the obligations 'the session emitter / task emitter / every continuity append has a join-safe shape' and 'every handler subscribes before its snapshot' are re-proved by decide on the regenerated tables. Tied further by controlled-schedule correspondence: the real emitters and the real GET .../events handlers are single-stepped through yield points (cfg rip_verif) for every (subscribe, snapshot) position on short streams and random schedules on longer ones, all three stream kinds; delivered seqs must equal the model's and the observed point trace must match the generated order. A subscriber lagging more than the channel capacity loses frames: recorded known finding.",
         "level_note": "Lean kernel; tokio broadcast (FIFO delivery to receivers subscribed at send time) and tokio Mutex are modelled, not verified; the model's channel is unbounded (capacity is the known finding); ripx is trusted to report the order of the effect calls it recognises (cross-checked dynamically against the yield-point trace on every run).",
